@@ -223,3 +223,4 @@ package set
 //@ func handleSUNION props C16,C12,C13
 //@   requires generic.henv(params)
 //@   ensures {C13,C16} pure: tpure(params)
+//@   ensures {C13,C16} keeps: forall k string :: old(tlive(params, k)) ==> has(tstore(params), k)
